@@ -373,8 +373,8 @@ zix_path_lexically_normal(ZixAllocator* const allocator, const char* const path)
         next = i;
       }
 
-      if (result[i] != sep && result[i] != '.') {
-        last = next;
+      if (result[i] != sep && (result[i] != '.' || i >= next + 2U)) {
+        last = next; // Not "." or "..": a non-dot, or a third character
       }
       ++i;
     }
